@@ -57,7 +57,7 @@ func runC19(s *core.Sim, tier string) RunInfo {
 	ctx := context.Background()
 	// --- initialisation on an empty store: Head without TrustedHead, adopted only if not expired
 	var startErr error
-	if _, fin := s.Do("syncer-start", 30*time.Minute, func() { startErr = w.Sy.Start(ctx) }); !fin {
+	if _, fin := s.Do("syncer-start", 30*time.Minute, func() { startErr = w.StartSyncer(29 * time.Minute) }); !fin {
 		s.Violate("hang", map[string]string{"op": "Start"}, "Start did not return")
 		return info()
 	}
